@@ -31,6 +31,19 @@ A10 method of a store slot   `p[i].m(args)` as an expression STATEMENT (result d
                       Anywhere else (in an expression whose value is used, on another receiver) such a call is not
                       desugared: it becomes the pure call "call:<m>", which has no meaning in Model/PrimsAggInv.v.
 
+FIRST / LAST over inventories (bld-inv2, C12_source_first_last_*).  `first(x)` / `last(x)` with x an Inventory / Position /
+Amount go through the SAME classes as over scalars (query_env.First / Last are registered once, for [types.Any]); what
+was missing is (1) that fact as generated data and (2) the methods tied on stores whose slots hold ENCODED INVENTORIES
+(group agg's theorems are over scalar `value` slots).  Appended to the group, AFTER everything else:
+* `aggi_First_*` / `aggi_Last_*`: the protocol methods of every overload registered under `first` / `last` (whatever it
+  is; an overload that is not an aggregator class is a broken tie), through the live MRO, same translator - a First.update
+  that copies / mutates the value (an A10 call, a `copy.copy`) gives a different term;
+* `first_last_overloads`: (registered name, qualified class, argument types, resolved methods) of EVERY overload of
+  `first` and `last` in the live query_compile.FUNCTIONS, in registry order;
+* `first_last_dispatch`: for every datatype that occurs in the registry (argument or result type of any function) plus
+  Inventory / Position / Amount: which class the LIVE types.function_lookup(FUNCTIONS, name, [operand of that type])
+  returns, for name = first and last.
+
 Everything fails closed with py2mini.Untranslatable."""
 import ast
 import inspect
@@ -150,7 +163,66 @@ def spec_agginv():
             row.append(seen[id(fn)])
         intypes = ','.join(_qual(t) for t in cls.__intypes__)
         classes.append((key, f'{cls.__module__}.{key}', regname, intypes, row, live_dtype(cls)))
-    return items, classes
+    fl = first_last_census(items, seen)
+    return items, classes, fl
+
+
+FIRST_LAST = ('first', 'last')
+
+
+def _tyname(t):
+    from beanquery import types
+    return 'any' if t is types.Any else _qual(t)
+
+
+def registry_datatypes():
+    """every datatype that occurs as an argument or result type of a registered function, plus the three inventory
+    types, deduplicated by identity, in order of qualified name"""
+    from beanquery import query_compile as qc, types
+    from beancount.core import amount, inventory, position
+    out = [inventory.Inventory, position.Position, amount.Amount]
+    for ovs in qc.FUNCTIONS.values():
+        for f in ovs:
+            for t in list(getattr(f, '__intypes__', ())) + [getattr(f, '__outtype__', None)]:
+                if inspect.isclass(t) and not any(t is u for u in out):
+                    out.append(t)
+    return sorted(out, key=_qual)
+
+
+def first_last_census(items, seen):
+    """(overloads, dispatch); appends the methods of the overloads' classes to `items` (bld-inv2)"""
+    from beanquery import query_compile as qc, types
+    overloads, rows = [], {}
+    for regname in FIRST_LAST:
+        ovs = list(qc.FUNCTIONS.get(regname, ()))
+        if not ovs:
+            raise Untranslatable(f'no function registered under {regname!r}')
+        for f in ovs:
+            if not (inspect.isclass(f) and issubclass(f, qc.EvalAggregator)):
+                raise Untranslatable(f'{regname}: the overload {f!r} is not an aggregator class')
+            key = src_agg._class_key(f)
+            if key not in rows:
+                row = []
+                for m in src_agg.METHODS:
+                    owner, fn = src_agg.resolve_method(f, m)
+                    cn = f'aggi_{owner.__qualname__}_{m.strip("_")}'
+                    if id(fn) not in seen:
+                        if cn in seen.values():
+                            raise Untranslatable(f'{cn}: two function objects of this name')
+                        seen[id(fn)] = cn
+                        inout = True if m in src_agg.PROTOCOL else None
+                        items.append((cn, f'{owner.__module__}.{owner.__qualname__}.{m}',
+                                      (lambda fn, inout: lambda refs, prims: SlotMethodTranslator(fn, refs, prims=prims, inout=inout))
+                                      (fn, inout), len(inspect.getsource(fn).splitlines())))
+                    row.append(seen[id(fn)])
+                rows[key] = row
+            overloads.append((regname, f'{f.__module__}.{key}', ','.join(_tyname(t) for t in f.__intypes__), key))
+    dispatch = []
+    for regname in FIRST_LAST:
+        for t in registry_datatypes():
+            f = types.function_lookup(qc.FUNCTIONS, regname, [qc.EvalConstant(None, t)])
+            dispatch.append((regname, _qual(t), 'None' if f is None else f'{f.__module__}.{src_agg._class_key(f)}'))
+    return overloads, rows, dispatch
 
 
 class AggInvGroup:
@@ -158,7 +230,7 @@ class AggInvGroup:
 
     @staticmethod
     def translate_all(spec, prims=()):
-        items, classes = spec
+        items, classes, (fl_overloads, fl_rows, fl_dispatch) = spec
         refs = py2mini.Refs()
         defs, info, a10 = [], {}, {}
         for name, origin, build, nlines in items:
@@ -186,8 +258,21 @@ class AggInvGroup:
                  'Definition agginv_dtypes : list (string * string * bool) :=\n  ' +
                  glist([f'({gstr(qn)}, {gstr(dt[0])}, {"true" if dt[1] else "false"})'
                         for _, qn, _, _, _, dt in classes]) + '.\n')
+        text += ('\n(* bld-inv2: EVERY overload registered under `first` / `last` in the live query_compile.FUNCTIONS (name, class, '
+                 'argument types,\n   the function each protocol method resolves to through the MRO of the live class) *)\n')
+        for key, row in fl_rows.items():
+            text += (f'Definition class_{key} : aggcls :=\n  {{| c_allocate := {row[0]}; c_initialize := {row[1]}; '
+                     f'c_update := {row[2]}; c_finalize := {row[3]}; c_call := {row[4]} |}}.\n')
+        text += ('Definition first_last_overloads : list (string * string * string * aggcls) :=\n  ' +
+                 glist([f'({gstr(rn)}, {gstr(qn)}, {gstr(it)}, class_{key})' for rn, qn, it, key in fl_overloads]) + '.\n')
+        text += ('\n(* what the live types.function_lookup(FUNCTIONS, name, [operand of that datatype]) returns, for every datatype '
+                 'of the registry\n   and Inventory / Position / Amount *)\n'
+                 'Definition first_last_dispatch : list (string * string * string) :=\n  ' +
+                 glist([f'({gstr(a)}, {gstr(b)}, {gstr(c)})' for a, b, c in fl_dispatch]) + '.\n')
         _last_report.clear()
-        _last_report.update({'src_agginv_classes': [c[1] for c in classes],
+        _last_report.update({'src_agginv_first_last_overloads': [list(o[:3]) for o in fl_overloads],
+                             'src_agginv_first_last_dispatch_types': len(fl_dispatch) // 2,
+                             'src_agginv_classes': [c[1] for c in classes],
                              'src_agginv_rule_A10_uses': a10,
                              'src_agginv_dtypes': {c[1]: c[5][0] for c in classes}})
         return text, info
